@@ -151,7 +151,7 @@ func (srv *Srv) flush(req *SrvReq) {
 	conn.Lock()
 	r := conn.reqs[tag]
 	if r != nil {
-		req.flushreq = r.flushreq
+		req.flushnext = r.flushreq
 		r.flushreq = req
 	}
 	conn.Unlock()
@@ -165,6 +165,11 @@ func (srv *Srv) flush(req *SrvReq) {
 
 	r.Lock()
 	status := r.status
+	if r.Tc.Type == Tflush {
+		/* a Tflush is never cancelled: it is always answered, and
+		   whoever flushes it is answered after it */
+		status |= reqWork
+	}
 	if (status & (reqWork | reqSaved)) == 0 {
 		/* the request is not worked on yet */
 		r.status |= reqFlush
